@@ -139,6 +139,7 @@ def want_array(t, vs):
     return ("L", wt)
 
 
+BIG_LENS = [255, 256, 257, 1023, 1024, 1025, 4095, 4096, 4097, 5000, 8192, 16383, 16384, 16385, 32767, 32768, 32769, 65535, 65536, 65537]
 POOL = list(INTS) + list(FLT) + ["char", "wchar"] + sorted(ALIAS)
 
 
@@ -176,6 +177,10 @@ def gen_case(rng: random.Random, tier: str):
             t = rng.choice(POOL)
             n = rng.randint(1, 4)
             ops.append({"op": "array", "cs": c, "t": t, "vs": [gen_value(rng, t) for _ in range(n)], "cached": rng.random() < 0.5})
+            if rng.random() < 0.04:
+                # boundary sizes: a long array (the 1-4 generated values repeated), crossing block sizes and bulk-path thresholds
+                size = gen.SIZES[ALIAS.get(t, t)]
+                ops[-1]["rep"] = rng.choice([x for x in BIG_LENS if x * size <= 140000])
         elif r < 0.66:
             # null-terminated form x[]: elements up to and including the first zero element; dumping re-appends it
             t = rng.choice(["wchar", "wchar", "char", "uint8", "uint16", "int32", "uint64", "int24", "WORD", "uleb128"])
@@ -310,6 +315,9 @@ def _step(op, worlds, stats, fail):
                 fail("encode", f"{t} endian {e} dumps({pv!r}) gave {d2.hex()}, standard encoding is {b.hex()}")
         elif k == "array":
             t = op["t"]
+            if op.get("rep"):
+                op = dict(op, vs=(op["vs"] * (op["rep"] // len(op["vs"]) + 1))[: op["rep"]])
+                stats.count("probe.long_array_255_to_65537_elements")
             n = len(op["vs"])
             key = (t, n)
             if op["cached"] and key in w["arrays"]:
